@@ -98,7 +98,9 @@ def steps_program(st, program, sink, with_index, tr, name='out.tdms', after_sess
                 rec['wmark'] = len(st.fs.writes)
                 try:
                     objs = wgen.make_objects(nptdms, call, tr.arrays)
-                    writer.write_segment(objs)
+                    how_objs = program.get('objects_as', 'list')
+                    writer.write_segment(tuple(objs) if how_objs == 'tuple' else
+                                         ((o for o in objs) if how_objs == 'generator' else objs))
                     rec['accepted'] = True
                 except Exception as exc:
                     rec['exc'] = '%s: %s' % (type(exc).__name__, exc)
